@@ -1,14 +1,15 @@
 //! c07-replay: native twin of the Kani harnesses.
 //!
-//!   c07-replay <harness> <v1> <v2> ...      one run, one JSON line on stdout
-//!   c07-replay --batch                      lines "<harness> <v1> <v2> ..." on stdin
+//!   c07-replay <unit> <v1> <v2> ...         one run, one JSON line on stdout
+//!   c07-replay --batch                      lines "<unit> <v1> <v2> ..." on stdin
 //!
-//! The values are the harness' `kani::any()` results in call order.  The real assembler
+//! The values are the `kani::any()` results in call order: [has_avx2 (0/1) if the spec leaves
+//! it open], then the operands of the unit (see harnesses.json `draws`).  The real assembler
 //! method is called with them (a panic = refusal), the reference decoder is run on the
 //! bytes and the same field-by-field comparison as under Kani is printed.
 
 use c07_x64_harness::decoder::{self, Insn, Mem, Opnd};
-use c07_x64_harness::{compare, harnesses, ListSrc, FIELDS};
+use c07_x64_harness::{compare, decode_outcome, harnesses, ListSrc, FIELDS};
 use std::io::BufRead;
 
 fn opnd_json(o: &Opnd) -> String {
@@ -57,7 +58,7 @@ fn run(name: &str, vals: Vec<i64>) -> String {
         Ok((None, _, _)) => format!("{{\"harness\":\"{}\",\"status\":\"unknown_harness\"}}", name),
         Ok((Some(None), _, _)) => format!("{{\"harness\":\"{}\",\"status\":\"assumption_violated\"}}", name),
         Ok((Some(Some(o)), underflow, used)) => {
-            let got = decoder::decode(&o.code, o.at);
+            let got = decode_outcome(&o);
             let cmp = compare(&o, &got);
             let mut mism: Vec<String> = Vec::new();
             for (k, ok) in cmp.iter().enumerate() {
@@ -76,20 +77,20 @@ fn run(name: &str, vals: Vec<i64>) -> String {
                 underflow,
                 used,
                 hex.join(""),
-                o.at,
-                o.tail,
+                o.e.at,
+                o.e.tail,
                 ilen,
-                match o.target {
+                match o.target_abs() {
                     Some(t) => t.to_string(),
                     None => "null".to_string(),
                 },
-                o.legal,
+                o.e.legal,
                 match &got {
                     Some(g) => insn_json(g),
                     None => "null".to_string(),
                 },
-                insn_json(&o.exp),
-                match &o.alt {
+                insn_json(&o.e.exp),
+                match &o.e.alt {
                     Some(a) => insn_json(a),
                     None => "null".to_string(),
                 },
